@@ -323,6 +323,52 @@ pub fn run(ctx: &Ctx) -> Report {
             }
         }
     }
+    // very long games (1100 / 2300 plies of knight shuffles with a pawn move every 90 plies so
+    // that the fifty-move clock never matters), every ply made with its queries, then the whole
+    // game taken back: nesting depth far beyond any bounded undo record
+    if ctx.shard_index() == 1 || ctx.shard_index() == 2 {
+        let plies = if ctx.shard_index() == 1 { 1100 } else { ctx.tier.pick(1300, 2300) };
+        let start = Pos::startpos();
+        let mut game = Game::new(start.clone());
+        let cyc = ["g1f3", "g8f6", "f3g1", "f6g8", "b1c3", "b8c6", "c3b1", "c6b8"];
+        let pawns = ["a2a3", "a7a6", "b2b3", "b7b6", "c2c3", "c7c6", "d2d3", "d7d6", "e2e3", "e7e6", "f2f3", "f7f6", "g2g3", "g7g6", "h2h3", "h7h6", "a3a4", "a6a5", "b3b4", "b6b5", "c3c4", "c6c5", "d3d4", "d6d5", "e3e4", "e6e5", "h3h4", "h6h5"];
+        let mut script: Vec<String> = vec![];
+        let (mut i, mut pi) = (0usize, 0usize);
+        while script.len() < plies {
+            // a pawn move pair at the start of every 88-ply block (both sides, keeps the parity of the cycle)
+            let u = if i % 88 < 2 && pi < pawns.len() {
+                let u = pawns[pi];
+                pi += 1;
+                u
+            } else {
+                cyc[(i - 2 * (i / 88 + 1).min(pi / 2 + 1) + 8 * 100) % 8]
+            };
+            match game.cur.find_legal(u) {
+                Some(m) => {
+                    game.play(m);
+                    script.push(format!("make {u}"));
+                }
+                None => {
+                    // out of step with the cycle: any legal knight or king move keeps the game going
+                    let l = game.cur.legal_moves();
+                    let m = l[(i * 7) % l.len()];
+                    script.push(format!("make {}", m.uci()));
+                    game.play(m);
+                }
+            }
+            i += 1;
+        }
+        script.push("legal_moves".into());
+        script.push("in_check".into());
+        rep.class("shape:very-long-game(>1000 plies)");
+        if let Err(v) = run_script(&start.to_fen(), &script, &mut rep) {
+            if let Some(k) = ctx.is_known(&v.sig) {
+                rep.known(&v.sig, &k.text);
+            } else {
+                rep.violation(v);
+            }
+        }
+    }
     let cases = ctx.tier.pick(32_000, 200_000) / ctx.shard_count() as u32;
     let max_len = ctx.tier.pick(90, 160);
     run_prop(ctx, "c02-ops", cases, 3000, ops_strategy(max_len), &mut rep, |case, rep| {
@@ -348,7 +394,7 @@ pub fn replay(_ctx: &Ctx, case: &Value) -> Report {
 }
 
 pub const LEVEL: &str = "exploration";
-pub const RULE: &str = "proptest-generated stack-disciplined op sequences (make / unmake / legal_moves / in_check / find_move; moves chosen by special-move- and repetition-weighted play on the oracle) over startpos / corpus / synthesised / pattern starts. Round-trip oracle: after every unmake the whole Board == the clone taken before the make (derived PartialEq over all fields), earlier positions still remembered, legal moves unchanged; at every visited position every legal move is made and unmade; every query leaves the Board == its snapshot; the whole line is unwound at the end. Non-trivial = a make/unmake pair of a special move (castle, e.p., promotion, promotion-capture, capture on a rook home square), or any pair or query at a position that repeats an earlier position of the line, or nesting depth >= 2; distinct by (position identity, move).";
+pub const RULE: &str = "proptest-generated stack-disciplined op sequences (make / unmake / legal_moves / in_check / find_move; moves chosen by special-move- and repetition-weighted play on the oracle) over startpos / corpus / synthesised / pattern starts. Round-trip oracle: after every unmake the whole Board == the clone taken before the make (derived PartialEq over all fields), earlier positions still remembered, legal moves unchanged; at every visited position every legal move is made and unmade; every query leaves the Board == its snapshot; the whole line is unwound at the end. Two very long games (1100 and 1300 quick / 2300 thorough plies from the start position) are made ply by ply with their queries and then taken back completely, so the nesting depth goes far beyond any bounded undo record. Non-trivial = a make/unmake pair of a special move (castle, e.p., promotion, promotion-capture, capture on a rook home square), or any pair or query at a position that repeats an earlier position of the line, or nesting depth >= 2; distinct by (position identity, move).";
 pub const ASSUMPTIONS: &[&str] = &[
     "Board's derived PartialEq covers every field (checked by reading src/board.rs)",
     "the oracle is used only to choose moves and to know when a position repeats",
